@@ -174,11 +174,13 @@ def source_value(toks, kind, ac, s):
         v = num(vals[0])
         if v is None:
             return None
-        return G(v) if kind == 'dc' else (G(v) / s if kind == 'ivp' else G(0))
+        return G(v) if kind in ('dc', 'time') else (G(v) / s if kind == 'ivp' else G(0))
     if kw == 'step' and len(vals) == 1:
         v = num(vals[0])
         if v is None:
             return None
+        if kind == 'time':
+            return G(v)               # evaluated at an instant t0 > 0
         return G(v) / s if kind in ('s', 'ivp', 'laplace', 'transient') else G(0)
     if kw == 'ac' and len(vals) in (1, 2, 3):
         v = num(vals[0])
@@ -193,7 +195,7 @@ def source_value(toks, kind, ac, s):
         return G(0) if kind == 'dc' else None
     if len(args) == 1 and num(kw.strip('{}')) is not None:
         v = num(kw.strip('{}'))          # `V1 1 0 5`: constant source
-        if kind == 'dc':
+        if kind in ('dc', 'time'):
             return G(v)
         if kind == 'ivp':
             return G(v) / s
@@ -221,7 +223,7 @@ def oracle(case, kd, s0):
     bad = []
     kind = kd['kind']
     is_ac = bool(kd.get('ac'))
-    if kind not in ('dc', 's', 'ivp', 'laplace', 'transient') and not is_ac:
+    if kind not in ('dc', 's', 'ivp', 'laplace', 'transient', 'time') and not is_ac:
         return bad
     V = {k: (G(v) if v is not None else None) for k, v in kd.get('Vdict', {}).items()}
     I = {k: (G(v) if v is not None else None) for k, v in kd.get('Idict', {}).items()}
@@ -476,9 +478,24 @@ def build_checks(ci, case, wres, tr, res, point_eps):
                 res.count('ac_entries_compared', len(ents))
         else:
             res.count('matrix_not_rational')
+        es_sol = es
         if kd.get('has_eps'):
-            res.count('eps_case_solution_checks_skipped')
-            continue
+            # capacitors at dc are stamped as a conductance eps and the limit eps -> 0 of the solution is
+            # reported; by continuity that limit satisfies the system at eps = 0, so the solver contract is
+            # checked against the model assembled with eps := 0 (the entries above were compared at eps = 1/7)
+            raws0 = []
+            for e in kd['elements']:
+                owner = None
+                for c in e['mro']:
+                    o = tr.stamp_owner(c) if c in tr.bases else None
+                    if o:
+                        owner = o
+                        break
+                raws0.append(raw_of(e, ids, kindc, owner, '0/1', F))
+            es_sol = 'es0_%d_%s' % (ci, kt)
+            checks.append(('%d/%s/unknowns0' % (ci, kind), 'Definition %s : list (raw %s) := [%s].' % (es_sol, KN, ';\n  '.join(raws0)),
+                           'check_unknowns %s %s [%s]' % (KN, es_sol, '; '.join(exp))))
+            res.count('eps_case_solution_checked_at_eps_0')
         # solver contract and reporting
         first = None
         for m, x in kd.get('solutions', {}).items():
@@ -487,7 +504,7 @@ def build_checks(ci, case, wres, tr, res, point_eps):
                 continue
             xs = '[%s]' % '; '.join(q(v, F) for v in x)
             checks.append(('%d/%s/solution_%s' % (ci, kind, m), None,
-                           'check_solution %s %s %s %d%%nat %d%%nat %s' % (KN, EQ, es, nn, mm, xs)))
+                           'check_solution %s %s %s %d%%nat %d%%nat %s' % (KN, EQ, es_sol, nn, mm, xs)))
             if first is None:
                 first = xs
         if first is None or 'Idict' not in kd:
@@ -509,7 +526,7 @@ def build_checks(ci, case, wres, tr, res, point_eps):
             else:
                 continue
             checks.append(('%d/%s/I_%s' % (ci, kind, nm), None, 'check_report %s %s %s %d%%nat %s %s %s %s %d%%nat %s %s' % (
-                KN, EQ, es, ids[nm], conv, rk, v0, zr, nn, first, q(kd['Idict'][nm], F))))
+                KN, EQ, es_sol, ids[nm], conv, rk, v0, zr, nn, first, q(kd['Idict'][nm], F))))
         for node, idx in kd['node_index'].items():
             ev = kd['Vdict'].get(node)
             if not valid(ev, F):
@@ -536,7 +553,7 @@ def cases_file(items):
 def gen_cases(rng, tier):
     n = int(os.environ.get('VERIF_NCASES', 60 if tier == 'quick' else 400))
     cases = []
-    profiles = ['s', 'ivp', 'dc', 'mixed', 'ac']
+    profiles = ['s', 'ivp', 'dc', 'mixed', 'ac', 'res']
     for i in range(n):
         prof = profiles[i % len(profiles)]
         nl = netgen.gen_netlist(rng, prof)
@@ -729,7 +746,7 @@ def run(tier='quick', replay=None):
             ci = int(lab.split('/')[0])
             res.disagreements.append({'check': lab, 'case': cases[ci]})
         res.rule = ('random connected netlists (netgen: R/L/C tree + chords + sources + controlled sources, transformer, gyrator, '
-                    'mutual inductance, two-ports, wires, ammeters, duplicates; profiles dc/s/ivp/mixed/ac (ac = phasor analysis, evaluated over the Gaussian rationals); both current-sign conventions; '
+                    'mutual inductance, two-ports, wires, ammeters, duplicates; profiles dc/s/ivp/mixed/ac/res (ac = phasor analysis, evaluated over the Gaussian rationals; res = resistive circuits, analysed in the time domain and evaluated at an instant t0 > 0); both current-sign conventions; '
                     '2-4 solver methods) plus a fixed corpus; non-trivial = Lcapy solved at least one analysis kind; distinct = distinct netlist text')
 
         # decide
